@@ -3,6 +3,7 @@ package c11
 import (
 	"fmt"
 	"math"
+	"runtime"
 	"testing"
 
 	"gopkg.in/typ.v4/maps"
@@ -26,7 +27,10 @@ import (
 //	            | 3 rotating RemoveForward, key-colliding Add, RemoveReverse, value-colliding Add, doubly-colliding Add | 4 random mix of all nine single calls
 //	churn  N    N random single calls (all nine kinds) at the current size
 //	clear       Clear
-//	clone  A    Clone the current box (max 3 boxes; the oldest other box is dropped); A odd: continue on the clone
+//	clone  A    Clone the current box (max 3 boxes; the oldest other box is dropped); A odd: continue on the clone.
+//	            The clone is verified over the whole universe IMMEDIATELY after Clone returned (before any other call), then every box.
+//	new    A    a new INDEPENDENT zero-value Bimap becomes a box (placed like a clone); A odd: continue on it
+//	gc          runtime.GC()
 //	switch A    continue on box A mod live
 //	range  A    Range; A = 0 all, else f returns false at call 1 + (A-1) mod (Len+1)  (so Len+1 = never reached)
 //	nested A    Range whose callback only reads Bimaps. A mod 5: 0 full inner Range at outer calls 1, 2, Len/2, Len | 1 full inner Range at every outer call (Len <= 96) or at 24 evenly spread calls
@@ -48,6 +52,12 @@ type BStep struct {
 type BigCase struct {
 	Seed  int     `json:"seed"`
 	Steps []BStep `json:"steps"`
+	// Procs > 0: the case runs under runtime.GOMAXPROCS(Procs) (restored afterwards).
+	Procs int `json:"procs,omitempty"`
+	// Lean (for maps of tens of thousands of pairs): every 8th single call, and every one while Len is within 4 of a power of two, is checked after the call (touched keys/values + Len),
+	// no whole-universe checks at size boundaries inside a step, and at the end of a step only the box the step worked on is
+	// verified over the whole universe (the others: Len, everything the step touched, 512 spread keys and values).
+	Lean bool `json:"lean,omitempty"`
 }
 
 const vbase = 1000000
@@ -87,6 +97,10 @@ type bigBox struct {
 
 func newBigBox(b *maps.Bimap[K, V]) *bigBox {
 	return &bigBox{b: b, fwd: map[K]V{}, rev: map[V]K{}, pos: map[K]int{}}
+}
+
+func newBigBoxN(b *maps.Bimap[K, V], n int) *bigBox {
+	return &bigBox{b: b, fwd: make(map[K]V, n), rev: make(map[V]K, n), pos: make(map[K]int, n)}
 }
 
 func (x *bigBox) size() int { return len(x.keys) }
@@ -146,7 +160,7 @@ func (x *bigBox) clear() {
 }
 
 func (x *bigBox) cloneModel(b *maps.Bimap[K, V]) *bigBox {
-	y := newBigBox(b)
+	y := newBigBoxN(b, len(x.keys))
 	y.keys = append([]K(nil), x.keys...)
 	for i, k := range y.keys {
 		v := x.fwd[k]
@@ -179,6 +193,10 @@ type bigRun struct {
 	cur          int
 	nextK, nextV int
 	s            uint64
+	lean         bool
+	touchedK     []K
+	touchedV     []V
+	news, gcs    int
 	evals        int
 	calls        int
 	step         int
@@ -292,6 +310,44 @@ func (r *bigRun) fullAll(when string) string {
 	return ""
 }
 
+// probe is the cheaper check of lean cases for a box the step did not work on: Len, every key and value the step
+// touched in the box it did work on, and 512 keys and values spread evenly over the universe.
+func (r *bigRun) probe(bi int, when string) string {
+	x := r.boxes[bi]
+	if got := x.b.Len(); got != x.size() {
+		return fmt.Sprintf("%s, %s: Len() = %d, want %d", r.where(bi), when, got, x.size())
+	}
+	for _, k := range r.touchedK {
+		if m := r.checkKey(x, bi, k, when); m != "" {
+			return m
+		}
+	}
+	for _, v := range r.touchedV {
+		if m := r.checkVal(x, bi, v, when); m != "" {
+			return m
+		}
+	}
+	const samples = 512
+	for j := 0; j < samples; j++ {
+		if m := r.checkKey(x, bi, keyOf(j*(r.nextK+1)/samples), when); m != "" {
+			return m
+		}
+		if m := r.checkVal(x, bi, valOf(j*(r.nextV+1)/samples), when); m != "" {
+			return m
+		}
+	}
+	return ""
+}
+
+func nearPow2(n, d int) bool {
+	for t := 64; t <= n+d; t <<= 1 {
+		if n >= t-d && n <= t+d {
+			return true
+		}
+	}
+	return false
+}
+
 func boundary(size, peak, universe int) bool {
 	if universe <= 48 {
 		return true
@@ -398,16 +454,25 @@ func (r *bigRun) single(kind int) string {
 		}
 		return ""
 	}
-	switch kind {
-	case sRemFwd, sRemFwdAbsent:
-		what = fmt.Sprintf("RemoveForward(%d)", k)
-	case sRemRev, sRemRevAbsent:
-		what = fmt.Sprintf("RemoveReverse(%d)", v)
-	default:
-		what = fmt.Sprintf("Add(%d,%d)", k, v)
+	describe := func() string {
+		switch kind {
+		case sRemFwd, sRemFwdAbsent:
+			return fmt.Sprintf("RemoveForward(%d)", k)
+		case sRemRev, sRemRevAbsent:
+			return fmt.Sprintf("RemoveReverse(%d)", v)
+		}
+		return fmt.Sprintf("Add(%d,%d)", k, v)
 	}
-	if m := check("before " + what); m != "" {
-		return m
+	if r.lean { // remember what this step touched: the boxes that are not fully verified at the end of the step are probed there
+		if len(r.touchedK) < 4096 {
+			r.touchedK = append(r.touchedK, tk...)
+			r.touchedV = append(r.touchedV, tv...)
+		}
+	} else {
+		what = describe()
+		if m := check("before " + what); m != "" {
+			return m
+		}
 	}
 	switch {
 	case isAdd:
@@ -433,6 +498,15 @@ func (r *bigRun) single(kind int) string {
 	if x.peak > r.maxPeak {
 		r.maxPeak = x.peak
 	}
+	if r.lean {
+		// every 8th call, and every call while Len is within 4 of a power of two (or below 64), is checked; the text is only built when something is wrong
+		if sz := x.size(); r.calls%8 == 0 || sz < 64 || nearPow2(sz, 4) {
+			if check("") != "" {
+				return check("after " + describe())
+			}
+		}
+		return ""
+	}
 	if m := check("after " + what); m != "" {
 		return m
 	}
@@ -444,6 +518,18 @@ func (r *bigRun) single(kind int) string {
 		}
 	}
 	return ""
+}
+
+// place makes y a live box: appended while fewer than 3 are alive, else it replaces a box other than the current one (alternating).
+func (r *bigRun) place(y *bigBox, created int) int {
+	at := len(r.boxes)
+	if len(r.boxes) < 3 {
+		r.boxes = append(r.boxes, y)
+	} else {
+		at = (r.cur + 1 + created%2) % 3
+		r.boxes[at] = y
+	}
+	return at
 }
 
 // bigRange runs Range on box bi. stop <= 0: never stop. inner may be nil.
@@ -566,13 +652,18 @@ func (r *bigRun) nested(bi, variant int) string {
 }
 
 func RunBig(c BigCase) pbt.Outcome {
-	r := &bigRun{s: uint64(c.Seed)*2654435761 + 12345}
+	r := &bigRun{s: uint64(c.Seed)*2654435761 + 12345, lean: c.Lean}
+	if c.Procs > 0 {
+		defer runtime.GOMAXPROCS(runtime.GOMAXPROCS(c.Procs))
+	}
 	var b0 maps.Bimap[K, V]
 	r.boxes = []*bigBox{newBigBox(&b0)}
 	var created int // boxes ever created (for dropping the oldest)
 	for si, st := range c.Steps {
 		r.step, r.stepWhat = si, fmt.Sprintf("%s n=%d a=%d", st.K, st.N, st.A)
 		x := r.boxes[r.cur]
+		worked := x
+		r.touchedK, r.touchedV = r.touchedK[:0], r.touchedV[:0]
 		switch st.K {
 		case "fill":
 			target := st.N
@@ -640,17 +731,38 @@ func RunBig(c BigCase) pbt.Outcome {
 			r.calls++
 			cl := x.b.Clone()
 			y := x.cloneModel(&cl)
-			created++
-			at := len(r.boxes)
-			if len(r.boxes) < 3 {
-				r.boxes = append(r.boxes, y)
-			} else { // replace a box other than the current one, alternating
-				at = (r.cur + 1 + created%2) % 3
-				r.boxes[at] = y
+			// the clone must be complete the moment Clone returns: look at it before anything else happens
+			r.boxes = append(r.boxes, y)
+			m := r.full(len(r.boxes)-1, "immediately after Clone() of box "+fmt.Sprint(r.cur)+" returned")
+			r.boxes = r.boxes[:len(r.boxes)-1]
+			if m != "" {
+				return pbt.Fail("%s", m)
 			}
+			created++
+			at := r.place(y, created)
 			if mod(st.A, 2) == 1 {
 				r.cur = at
 			}
+		case "new":
+			r.calls++
+			r.news++
+			var nb maps.Bimap[K, V]
+			y := newBigBox(&nb)
+			// keys and values freed in the current box are "used before" for the new one too
+			// ... and so are its live ones: the two unrelated Bimaps will hold the same keys and values in different pairings
+			y.freeK = append(append([]K(nil), x.freeK...), x.keys...)
+			y.freeV = append([]V(nil), x.freeV...)
+			for _, k := range x.keys {
+				y.freeV = append(y.freeV, x.fwd[k])
+			}
+			created++
+			at := r.place(y, created)
+			if mod(st.A, 2) == 1 {
+				r.cur = at
+			}
+		case "gc":
+			r.gcs++
+			runtime.GC()
 		case "switch":
 			r.cur = mod(st.A, len(r.boxes))
 		case "range":
@@ -676,8 +788,23 @@ func RunBig(c BigCase) pbt.Outcome {
 		default:
 			return pbt.Outcome{Skipped: true}
 		}
-		if m := r.fullAll("at the end of the step"); m != "" {
-			return pbt.Fail("%s", m)
+		if !r.lean {
+			if m := r.fullAll("at the end of the step"); m != "" {
+				return pbt.Fail("%s", m)
+			}
+			continue
+		}
+		// lean: the box the step worked on (or cloned / ranged over) over the whole universe, the others probed
+		for bi, y := range r.boxes {
+			var m string
+			if y == worked {
+				m = r.full(bi, "at the end of the step")
+			} else {
+				m = r.probe(bi, "at the end of the step (box not used in this step)")
+			}
+			if m != "" {
+				return pbt.Fail("%s", m)
+			}
 		}
 	}
 
@@ -696,8 +823,14 @@ func RunBig(c BigCase) pbt.Outcome {
 			return "257..1024"
 		case n <= 4096:
 			return "1025..4096"
+		case n <= 16383:
+			return "4097..16383"
+		case n <= 32767:
+			return "16384..32767"
+		case n <= 65535:
+			return "32768..65535"
 		}
-		return ">4096"
+		return ">=65536"
 	}
 	out.Labels = append(out.Labels,
 		"peak="+class(r.maxPeak),
@@ -712,6 +845,15 @@ func RunBig(c BigCase) pbt.Outcome {
 	}
 	if r.reuse > 0 {
 		out.Labels = append(out.Labels, "freed-keys/values-reused")
+	}
+	if r.news > 0 {
+		out.Labels = append(out.Labels, "independent-bimap")
+	}
+	if r.gcs > 0 {
+		out.Labels = append(out.Labels, "gc-between-calls")
+	}
+	if c.Procs > 0 {
+		out.Labels = append(out.Labels, fmt.Sprintf("GOMAXPROCS=%d", c.Procs))
 	}
 	names := [nSingle]string{"add-fresh", "add-same-pair", "add-collide-key-only", "add-collide-value-only", "add-collide-both", "remove-forward", "remove-reverse", "remove-forward-absent", "remove-reverse-absent"}
 	for i, n := range r.kinds {
@@ -771,6 +913,11 @@ func bigScripts(n int) [][]BStep {
 			{K: "nested", A: 3}, {K: "nested", A: 2}, {K: "drain", N: 0, A: 4},
 		},
 		saw,
+		{ // two (then three) INDEPENDENT Bimaps used alternately, garbage collections in between, dropped boxes
+			{K: "fill", N: n}, {K: "new", A: 1}, {K: "fill", N: q(2) + 1, A: 2}, {K: "switch", A: 0}, {K: "drain", N: q(2), A: 3}, {K: "gc"}, {K: "switch", A: 1}, {K: "churn", N: 16},
+			{K: "clear"}, {K: "switch", A: 0}, {K: "churn", N: 16}, {K: "new", A: 1}, {K: "fill", N: 9, A: 1}, {K: "clone", A: 0}, {K: "new", A: 0}, {K: "gc"}, {K: "switch", A: 0}, {K: "range"}, {K: "nested", A: 4},
+			{K: "clear"}, {K: "switch", A: 1}, {K: "fill", N: q(4) + 2, A: 3}, {K: "switch", A: 2}, {K: "fill", N: 5}, {K: "gc"}, {K: "churn", N: 8},
+		},
 	}
 }
 
@@ -779,9 +926,10 @@ var specBig = pbt.Register(&pbt.Spec[BigCase]{
 	Rule: "big Bimaps: scripts of bulk steps (fill to N by single Adds, plain or interleaved with same-pair/key-colliding/value-colliding/doubly-colliding Adds; drain to N by RemoveForward, RemoveReverse, " +
 		"doubly-colliding Adds (3-pair evictions crossing every size), rotating or random mixes; churn; Clear; Clone with both sides mutated afterwards; Range all / early stop at 1, Len-1, Len, Len+1; " +
 		"Range with read-only nested calls: inner full Ranges, inner early-stopped Ranges, Len/lookups/Clone inside the callback, Ranges over the other boxes (clones/originals)); keys/values picked by a case-seeded LCG from live pairs, freed (re-used) and never-used ones, the i-th new key/value being i/3, MaxInt-i/3 or MinInt+i/3 (both ends of the int range); " +
-		"enumerated: 6 scripts (Clear+re-use; eviction descent; removal descents; Clone; mixes; sawtooth around peak/2, peak/4, peak/8 with removals up to the line and evictions across it, and vice versa) x peak sizes " +
+		"new independent zero-value Bimaps as further boxes (used alternately with the others; replaced boxes become garbage) and runtime.GC() steps; every Clone is verified over the whole universe immediately after it returned; " +
+		"enumerated: 7 scripts (Clear+re-use; eviction descent; removal descents; Clone; mixes; sawtooth around peak/2, peak/4, peak/8 with removals up to the line and evictions across it, and vice versa; independent Bimaps used alternately around GCs) x peak sizes " +
 		"{1,2,3,5,7,8,9,12,13,14, 2^p-1, 2^p, 2^p+1 for p=4..12 (thorough ..14), 27,53,100,105,209,417,833,1000,1665,3329 (thorough + 1500,3000,6000,10000,32769,65537,100000)}; " +
-		"rapid: peak size drawn from the same list (<= 4097), first step fill, then 2..24 random steps with targets 0,1,N/8,N/4-1,N/4,N/4+1,N/2,N-1,N,N+1; " +
+		"rapid: peak size drawn from the same list (<= 4097), GOMAXPROCS left alone (60%) or 1,2,3,5,7 for the case, first step fill, then 2..24 random steps (incl. new, gc) with targets 0,1,N/8,N/4-1,N/4,N/4+1,N/2,N-1,N,N+1; " +
 		"oracle: model; touched keys/values + Len compared before and after every single call, whole universe of every box at the end of every step and at power-of-two and peak/2,/4,/8 sizes; " +
 		"non-trivial = some box reached >= 65 pairs",
 	Enum: func(shard, shards int, tier string, yield func(BigCase) bool) {
@@ -805,10 +953,11 @@ var specBig = pbt.Register(&pbt.Spec[BigCase]{
 		}
 		n := rapid.SampledFrom(sizes).Draw(t, "n")
 		c := BigCase{Seed: rapid.IntRange(0, 1<<20).Draw(t, "seed")}
+		c.Procs = rapid.SampledFrom([]int{0, 0, 0, 0, 0, 0, 1, 2, 3, 5, 7}).Draw(t, "procs")
 		c.Steps = append(c.Steps, BStep{K: "fill", N: n, A: rapid.IntRange(0, 3).Draw(t, "fillmode")})
 		targets := []int{0, 1, n / 8, n/4 - 1, n / 4, n/4 + 1, n / 2, n - 1, n, n + 1}
 		step := rapid.Custom(func(t *rapid.T) BStep {
-			k := rapid.SampledFrom([]string{"fill", "fill", "drain", "drain", "drain", "churn", "clear", "clone", "switch", "range", "nested", "nested"}).Draw(t, "k")
+			k := rapid.SampledFrom([]string{"fill", "fill", "fill", "drain", "drain", "drain", "drain", "churn", "churn", "clear", "clear", "clone", "clone", "switch", "switch", "range", "range", "nested", "nested", "nested", "new", "new", "gc"}).Draw(t, "k")
 			st := BStep{K: k}
 			switch k {
 			case "fill":
@@ -817,7 +966,7 @@ var specBig = pbt.Register(&pbt.Spec[BigCase]{
 				st.N, st.A = rapid.SampledFrom(targets).Draw(t, "n"), rapid.IntRange(0, 4).Draw(t, "a")
 			case "churn":
 				st.N = rapid.IntRange(1, 40).Draw(t, "n")
-			case "clone":
+			case "clone", "new":
 				st.A = rapid.IntRange(0, 1).Draw(t, "a")
 			case "switch":
 				st.A = rapid.IntRange(0, 2).Draw(t, "a")
